@@ -186,9 +186,59 @@ rule('D3', 'writer', r'text\.as_bytes\(\)\.iter\(\)\.position\(\|&b\| b == codes
 rule('D10', 'writer', r'for _ in 0\.\.longest_name - name\.len\(\) \{', 'for _i in 0..longest_name - name.len() {', 1,
      'anonymous loop variable named (Verus rejects `_` here)')
 # ---- builder ----------------------------------------------------------------------------------------
+rule('D15', 'builder', r'^pub const (\w+): &str =', r"pub const \1: &'static str =", 1,
+     "the elided lifetime of a reference in a const item is 'static by definition; Verus wants it written")
 rule('X7', 'builder', r"impl Default\n    for CliBuilder<EmptyWriter, Infallible, \[u8; DEFAULT_CMD_LEN\], \[u8; DEFAULT_HISTORY_LEN\]>\n\{.*?\n\}\n", '', 1,
      'NOT MIRRORED: Default for CliBuilder (struct literal with EmptyWriter, whose Write impl is not mirrored)',
      flags=re.M | re.S)
+
+# ---- help -------------------------------------------------------------------------------------------
+rule('D6', 'help', r"else if args\.any\(\|arg\| arg == Arg::LongOption\(\"help\"\) \|\| arg == Arg::ShortOption\('h'\)\) \{",
+     'else if {\n            let mut __found = false;\n            loop {\n                match args.next() {\n'
+     '                    Some(arg) => {\n                        if arg == Arg::LongOption("help") || arg == Arg::ShortOption(\'h\') {\n'
+     '                            __found = true;\n                            break;\n                        }\n                    }\n'
+     '                    None => {\n                        break;\n                    }\n                }\n            }\n            __found\n        } {', 1,
+     'Iterator::any(pred) == loop over next() that stops at the first element satisfying pred (definition of any); '
+     'ArgsIter is not an Iterator in the mirror (D7)')
+
+# ---- command ----------------------------------------------------------------------------------------
+rule('D11', 'command', r"#\[derive\(Clone, Debug, Eq, PartialEq\)\]\npub struct RawCommand<'a> \{(.*?)\n\}\n",
+     r"#[derive(Debug, Eq, PartialEq)]\npub struct RawCommand<'a> {\1\n}\n\n"
+     "impl<'a> Clone for RawCommand<'a> {\n    fn clone(&self) -> Self {\n        RawCommand { name: self.name, args: self.args.clone() }\n    }\n}\n", 1,
+     'derived Clone gets no Verus spec: replaced by the field-wise impl #[derive(Clone)] expands to', flags=re.M | re.S)
+rule('X7', 'command', r"\n    pub fn processor<.*?\n    \}\n\}\n\nimpl Autocomplete for RawCommand", "\n}\n\nimpl Autocomplete for RawCommand", 1,
+     'NOT MIRRORED: RawCommand::processor (adapter wrapping a user closure into a CommandProcessor; it declares a '
+     'struct and an impl inside the function body, which Verus does not support)', flags=re.M | re.S)
+_cnt = [0]
+
+
+def _named_param(m):
+    _cnt[0] += 1
+    return '%s_p%d: ' % (m.group(1), _cnt[0])
+
+
+rule('D10', 'command', r'([(\s])_: ', _named_param, 6,
+     'anonymous function parameters `_: T` named (Verus wants plain identifier patterns); the parameters are unused')
+# ---- service ----------------------------------------------------------------------------------------
+rule('X7', 'service', r"impl<W, E, F> CommandProcessor<W, E> for F\nwhere.*?\n\}\n", '', 1,
+     'NOT MIRRORED: blanket impl of CommandProcessor for closures (one-line call of the closure); a closure cannot '
+     'carry the ghost call log the trait contract is stated over', flags=re.M | re.S)
+# ---- cli --------------------------------------------------------------------------------------------
+rule('X8', 'cli', r"    new_prompt: Option<&'static str>,\n    writer: Writer<'a, W, E>,\n\}",
+     "    pub new_prompt: Option<&'static str>,\n    pub writer: Writer<'a, W, E>,\n}", 1,
+     'visibility only (see X8 for Autocompletion): CliHandle fields public in the mirror so that contracts of its '
+     'public methods and of CommandProcessor::process can speak about the wrapped Writer')
+rule('D9', 'cli', r'debug_assert_eq!\(c\.chars\(\)\.count\(\), 1\);', 'proof { assert(c@.len() == 1); }', 1,
+     'debug_assert_eq! on the number of chars becomes a proof obligation (it must hold in release builds too)')
+rule('D3', 'cli', r'"help"\.starts_with\(name\)', 'crate::verif_specs::str_starts_with("help", name)', 1,
+     'str::starts_with(&str) == byte-prefix test (shim contract; UTF-8 prefix of well-formed text at a boundary)')
+rule('D5', 'cli', r'let result = input_generator\n\s*\.accept\(b\)\n\s*\.map\(\|input\| match input \{\n(.*?)\n\s*\}\)\n\s*\.unwrap_or\(Ok\(\(\)\)\);',
+     r'let result = match input_generator.accept(b) {\n                Some(input) => match input {\n\1\n                },\n                None => Ok(()),\n            };', 1,
+     'Option::map(closure).unwrap_or(Ok(())) == match (definitions of map / unwrap_or); the closure captures &mut self',
+     flags=re.M | re.S)
+rule('D10', 'cli', r'C::command_help\(&mut \|_\| Ok\(\(\)\), command\.clone\(\), &mut writer\)',
+     'C::command_help(&mut |_p: &mut Writer<\'_, W, E>| -> (r: Result<(), E>) ensures r is Ok { Ok(()) }, command.clone(), &mut writer)', 1,
+     'closure parameter `_` named and typed; the closure contract (returns Ok, touches nothing) is spliced with it')
 
 
 def apply(module, src, log):
